@@ -305,7 +305,7 @@ vproof! {
 
 // ---- C07: Normal / LogNormal are mean + std_dev * z (resp. its exponential) for every parameter pair ----
 macro_rules! c07_normal {
-    ($name:ident, $f:ty) => {
+    ($name:ident, $f:ty, $zs:expr) => {
         vproof_free! {
             fn $name() {
                 let mut rng = SymRng::new(1);
@@ -325,7 +325,9 @@ macro_rules! c07_normal {
                 };
                 vassert!(biteq64(x as f64, (mean + sd * (z as $f)) as f64), "Normal: sample is not mean + std_dev * z");
                 // from_zscore for the same z
-                vassert!(biteq64(d.from_zscore(z as $f) as f64, (mean + sd * (z as $f)) as f64), "Normal::from_zscore(z) is not mean + std_dev * z");
+                if $zs {
+                    vassert!(biteq64(d.from_zscore(z as $f) as f64, (mean + sd * (z as $f)) as f64), "Normal::from_zscore(z) is not mean + std_dev * z");
+                }
                 kani::cover!(z == 2.0 && sd < 0.0, "z = 2, negative std_dev");
                 kani::cover!(sd == 0.0, "std_dev = 0");
             }
@@ -339,7 +341,15 @@ macro_rules! c07_normal {
 //@ funcs: Normal::<f64>::new; Normal::<f64>::sample; from_zscore
 //@ bounds: every accepted (mean, std_dev) incl. negative and zero std_dev; z over the free-stub value set {0,-0,+-1,2,1/2,3/4,-3}
 //@ assumes: utils::ziggurat replaced by a free logged draw consuming one word
-c07_normal!(c07_normal_f64, f64);
+c07_normal!(c07_normal_f64, f64, false);
+//@ id: c07_normal_zscore_f64
+//@ prop: C07
+//@ tier: thorough
+//@ cap: 3600
+//@ funcs: Normal::<f64>::sample; from_zscore
+//@ bounds: as c07_normal_f64, plus from_zscore(z) == mean + std_dev * z
+//@ assumes: utils::ziggurat replaced by a free logged draw
+c07_normal!(c07_normal_zscore_f64, f64, true);
 //@ id: c07_normal_f32
 //@ prop: C07
 //@ tier: quick
@@ -347,7 +357,7 @@ c07_normal!(c07_normal_f64, f64);
 //@ funcs: Normal::<f32>::new; Normal::<f32>::sample; from_zscore
 //@ bounds: as c07_normal_f64
 //@ assumes: utils::ziggurat replaced by a free logged draw
-c07_normal!(c07_normal_f32, f32);
+c07_normal!(c07_normal_f32, f32, true);
 
 macro_rules! c07_lognormal {
     ($name:ident, $f:ty) => {
